@@ -95,7 +95,10 @@ Fields == {"cluster_id", "amp", "group"}
 CInt(x) == [c |-> "int", i |-> x]
 CFloat(x) == [c |-> "float", f |-> x]
 CStr(x) == [c |-> "str", s |-> x]
-CellsFull == {CInt(3), CInt(-2), CFloat("f15"), CFloat("f123456"), CStr("good"), CStr("has_comma"), CStr("has_tab"),
+\* an integer beyond 2^53 (token; TLC's integers are 32-bit): written as its digits, read back as the SAME integer -
+\* text -> int() is exact at any size, text -> float() -> int() is not
+CBig(x) == [c |-> "bigint", s |-> x]
+CellsFull == {CBig("b53p1"), CInt(3), CInt(-2), CFloat("f15"), CFloat("f123456"), CStr("good"), CStr("has_comma"), CStr("has_tab"),
               CStr("has_quote"), CStr("has_space"), CStr("e5x")}
 CellsSmall == {CInt(3), CFloat("f15"), CStr("has_comma"), CStr("e5x")}
 \* sorted(fields) is alphabetical; TLC has no order on strings, so the order of the field alphabet
@@ -110,10 +113,11 @@ RowsOver(F) == UNION {[S -> Cells] : S \in SUBSET F}
 Written(row, f) == IF f \in DOMAIN row THEN
                       (IF row[f].c = "float" THEN [w |-> "f4", f |-> row[f].f]
                        ELSE IF row[f].c = "int" THEN [w |-> "digits", i |-> row[f].i]
+                       ELSE IF row[f].c = "bigint" THEN [w |-> "bigdigits", s |-> row[f].s]
                        ELSE [w |-> "text", s |-> row[f].s])
                    ELSE [w |-> "empty"]
 ReadCell(w) == IF w.w = "f4" THEN [c |-> "float4", f |-> w.f]       \* the float rounded to 4 decimals
-               ELSE IF w.w = "digits" THEN CInt(w.i) ELSE CStr(w.s)
+               ELSE IF w.w = "digits" THEN CInt(w.i) ELSE IF w.w = "bigdigits" THEN CBig(w.s) ELSE CStr(w.s)
 HeaderOf(F, first) == IF first \in F THEN <<first>> \o SortFields(F \ {first}) ELSE SortFields(F)
 WriteTsv(rows, first) == LET F == UNION {DOMAIN rows[q] : q \in 1..Len(rows)} IN
    [header |-> HeaderOf(F, first),
@@ -139,7 +143,7 @@ PickTsv == /\ "tsv" \in Modes /\ pc = "pick" /\ mode' = "tsv"
            /\ pc' = "done"
 \* two-column cluster tables: cluster id -> value (ints, floats written with repr, strings)
 SimpleIds == {0, 3, 41, 70000}
-SimpleCells == {CInt(3), CInt(-2), CFloat("f15"), CFloat("f123456"), CStr("good"), CStr("has_comma"), CStr("has_tab"), CStr("e5x")}
+SimpleCells == {CBig("b53p1"), CInt(3), CInt(-2), CFloat("f15"), CFloat("f123456"), CStr("good"), CStr("has_comma"), CStr("has_tab"), CStr("e5x")}
 PickSimple == /\ "simple" \in Modes /\ pc = "pick" /\ mode' = "simple" /\ first' = "none"
               /\ \E S \in SUBSET SimpleIds : input' \in [S -> SimpleCells]
               /\ pc' = "done"
